@@ -247,6 +247,15 @@ def newTLSConn (maxRetry : Nat) (s : Suite) (them : Key) (n : Nonce)
     | some raw => (verifyPeer s (some them) n raw).isNone
     | none => false
 
+/-- `NewTLSConn`'s tests before anything is sent (tls.go:472-478): the dialled address must be a TLS
+address, and the dialling node must have its private key (without it `certMaker.get` could not sign the
+listener's nonce) -/
+inductive DialPre | notTLS | noPrivate
+  deriving DecidableEq, Repr
+
+def dialPre (addrIsTLS hasPrivate : Bool) : Option DialPre :=
+  if !addrIsTLS then some .notTLS else if !hasPrivate then some .noPrivate else none
+
 /-! ### the router's side (router.go) -/
 
 /-- the self-declared identity sent as first message; only `pub` matters here, the other fields
@@ -700,6 +709,20 @@ def step (s : State) (toks : List String) : State × String :=
         | .data _ => "m:" ++ labelOf d.1.pub
         | .identity _ => "i:" ++ labelOf d.1.pub
       pure ("hs=ok disp=" ++ (if shown.isEmpty then "-" else ",".intercalate shown))
+    (s, r.getD "bad-op")
+  | "pre" :: rest =>
+    -- `pre suite=… addr=<tls|tcp|local> priv=<yes|no>`: `NewTLSConn` of a node with / without its private key
+    -- towards the honest node, addressed as a TLS, plain TCP or in-memory address
+    let r : Option String := do
+      let m ← kv rest
+      if m.length ≠ 3 then none
+      let _ ← (← get m "suite") |> suiteOf
+      let tls ← (match (← get m "addr") with | "tls" => some true | "tcp" => some false | "local" => some false | _ => none)
+      let priv ← (match (← get m "priv") with | "yes" => some true | "no" => some false | _ => none)
+      pure (match dialPre tls priv with
+        | some .notTLS => "pre=not-tls link=fail"
+        | some .noPrivate => "pre=no-private link=fail"
+        | none => "pre=ok link=ok")
     (s, r.getD "bad-op")
   | "honestcert" :: rest =>
     -- `honestcert role=<dial|accept> suite=… tlsv=… nonce=<ok|short|none|two>`: what the honest node
